@@ -8,6 +8,8 @@
 // After the concrete set-up phase: from here on container growth is a checked capacity bound in the
 // symbolic build (DESIGN.md 2.1).  No-op natively.
 extern "C" void verif_symbolic_phase(void);
+// Registers a pre-sized string/vector whose buffer is indexed symbolically: it must not grow in the symbolic phase.
+extern "C" void verif_nogrow(void* container);
 
 namespace vh {
 // outcome codes of observation functions
